@@ -20,6 +20,10 @@ Streams
   lazy         Align of lazy Binary, Contraction.align, Delta.align
   materialize  random lazy terms over Bint variables; value at every point vs the model's `denote`
   slice        materialize(Slice), slicing and diagonal substitution with slice-valued inputs (oracle only)
+  history      pools of tensors SHARING one ndarray under different name assignments (renamings, permutation
+               renamings, partial renamings, direct construction); sequences of align / to_data / to_funsor
+               round trips / binary ops applied alternately (A,B,A) with earlier results kept alive; every
+               result gated against the raw-array oracle, a function of (data, inputs, names) only
   index        ravel / unravel of the model vs numpy on a box
 """
 import itertools
@@ -1038,6 +1042,272 @@ def slice_stream(ctx, n):
 
 
 # ------------------------------------------------------------------------------------------
+# stream: histories over tensors that SHARE one backing array
+# ------------------------------------------------------------------------------------------
+# The property is a statement about a pure function of (data, inputs, names).  Anything that makes
+# the result depend on what was aligned *before* (a memo keyed on the identity of the backing array,
+# a cached permutation, a stale view) breaks it only on multi-step histories over tensors that share
+# an ndarray under different name assignments, with earlier results kept alive.  The interpreter
+# below is also the replay: it is plain source so a failing history replays stand-alone.
+
+HISTORY_SRC = r"""
+def run_history(desc):
+    import itertools
+    import numpy as np
+    from collections import OrderedDict
+    import funsor
+    from funsor import to_data, to_funsor
+    from funsor.domains import Bint, Reals, Array
+    from funsor.tensor import Tensor
+    funsor.set_backend("numpy")
+    sizes, es, dt, names = desc["sizes"], desc["es"], desc["dtype"], desc["names"]
+    shape = sizes + es
+    n = int(np.prod(shape)) if shape else 1
+    base = np.arange(n, dtype=np.float64 if dt == "real" else np.int64).reshape(shape)
+    data = base.copy() if desc["own"] else base
+    data0 = np.array(data, copy=True)            # the oracle never looks at funsor objects
+    nb = len(sizes)
+    x = Tensor(data, OrderedDict((k, Bint[s]) for k, s in zip(names, sizes)), dt)
+    sibs, keysof = {"x": x}, {"x": list(names)}
+    for lab, how, arg in desc["siblings"]:
+        if how == "rename":
+            sibs[lab] = x(**arg)
+            keysof[lab] = [arg.get(k, k) for k in names]
+        else:
+            sibs[lab] = Tensor(data, OrderedDict((k, Bint[s]) for k, s in zip(arg, sizes)), dt)
+            keysof[lab] = list(arg)
+    fails, keep, info = [], [], {"shared": 0, "skipped": 0}
+    for lab, t in sibs.items():
+        if not isinstance(t, Tensor) or list(t.inputs) != keysof[lab]:
+            info["skipped"] += 1
+            return fails, info
+        info["shared"] += int(t.data is data)
+
+    def value(keys, env, ev=()):
+        return data0[tuple(env[k] for k in keys) + tuple(ev)]
+
+    def check_tensor(step, g, keys, exp_keys):
+        # g must denote the same function as (data0, keys), with inputs in the order exp_keys
+        size = dict(zip(keys, sizes))
+        if not isinstance(g, Tensor):
+            fails.append(f"step {step}: result is {type(g).__name__}")
+            return False
+        if [(k, d.size) for k, d in g.inputs.items()] != [(k, size[k]) for k in exp_keys]:
+            fails.append(f"step {step}: inputs {[(k, d.size) for k, d in g.inputs.items()]} != "
+                         f"{[(k, size[k]) for k in exp_keys]}")
+            return False
+        gk = list(g.inputs)
+        for pt in itertools.product(*[range(s) for s in sizes]):
+            env = dict(zip(keys, pt))
+            if not np.array_equal(np.asarray(g.data)[tuple(env[k] for k in gk)], data0[pt]):
+                fails.append(f"step {step}: value at {env} is {np.asarray(g.data)[tuple(env[k] for k in gk)].tolist()}"
+                             f" expected {data0[pt].tolist()}")
+                return False
+        return True
+
+    def check_array(step, y, keys, n2d):
+        size = dict(zip(keys, sizes))
+        D = -min(n2d[k] for k in keys)
+        exp_shape = [1] * D
+        for k in keys:
+            exp_shape[D + n2d[k]] = size[k]
+        if list(np.shape(y)) != exp_shape + es:
+            fails.append(f"step {step}: to_data shape {list(np.shape(y))} != {exp_shape + es}")
+            return False
+        for pt in itertools.product(*[range(s) for s in sizes]):
+            env = dict(zip(keys, pt))
+            idx = [0] * D
+            for k in keys:
+                idx[D + n2d[k]] = env[k]
+            if not np.array_equal(np.asarray(y)[tuple(idx)], data0[pt]):
+                fails.append(f"step {step}: to_data entry for {env} is {np.asarray(y)[tuple(idx)].tolist()}"
+                             f" expected {data0[pt].tolist()}")
+                return False
+        return True
+
+    for i, st in enumerate(desc["steps"]):
+        op, lab = st[0], st[1]
+        t, keys = sibs[lab], keysof[lab]
+        try:
+            if op in ("align", "align_todata", "roundtrip"):
+                tgt = list(st[2])
+                g = t.align(tuple(tgt))
+                keep.append(g)
+                exp = tgt + [k for k in keys if k not in tgt] if tgt else keys
+                if not check_tensor(i, g, keys, exp):
+                    break
+                if op == "align_todata" and keys:
+                    y = to_data(g, OrderedDict(st[3]))
+                    keep.append(y)
+                    if not check_array(i, y, keys, dict(st[3])):
+                        break
+                if op == "roundtrip" and keys:
+                    gk = list(g.inputs)
+                    n2d = OrderedDict((k, j - len(gk)) for j, k in enumerate(gk))
+                    y = to_data(g, n2d)
+                    out = Reals[tuple(es)] if dt == "real" else Array[dt, tuple(es)]
+                    f2 = to_funsor(y, out, OrderedDict((d, k) for k, d in n2d.items()))
+                    keep.append(f2)
+                    size = dict(zip(keys, sizes))
+                    fk = list(f2.inputs)
+                    if fk != [k for k in gk if size[k] != 1]:
+                        fails.append(f"step {i}: round-trip inputs {fk}")
+                        break
+                    bad = False
+                    for pt in itertools.product(*[range(s) for s in sizes]):
+                        env = dict(zip(keys, pt))
+                        if not np.array_equal(np.asarray(f2.data)[tuple(env[k] for k in fk)], data0[pt]):
+                            fails.append(f"step {i}: round-trip value at {env}")
+                            bad = True
+                            break
+                    if bad:
+                        break
+            elif op == "todata":
+                if keys:
+                    y = to_data(t, OrderedDict(st[2]))
+                    keep.append(y)
+                    if not check_array(i, y, keys, dict(st[2])):
+                        break
+            elif op == "binary":
+                u, ukeys = sibs[st[2]], keysof[st[2]]
+                r = t + u
+                keep.append(r)
+                joint = list(keys) + [k for k in ukeys if k not in keys]
+                sz = dict(zip(keys, sizes))
+                sz.update(zip(ukeys, sizes))
+                if not isinstance(r, Tensor) or list(r.inputs) != joint:
+                    fails.append(f"step {i}: binary inputs {list(getattr(r, 'inputs', []))} != {joint}")
+                    break
+                bad = False
+                for pt in itertools.product(*[range(sz[k]) for k in joint]):
+                    env = dict(zip(joint, pt))
+                    e = value(keys, env) + value(ukeys, env)
+                    if not np.array_equal(np.asarray(r.data)[pt], e):
+                        fails.append(f"step {i}: binary value at {env}")
+                        bad = True
+                        break
+                if bad:
+                    break
+        except (AssertionError, ValueError, KeyError, IndexError, TypeError) as ex:
+            fails.append(f"step {i}: {op} on {lab} raised {type(ex).__name__}: {str(ex)[:120]}")
+            break
+    return fails, info
+"""
+
+_HIST_NS = {}
+
+
+def run_history(desc):
+    if "run_history" not in _HIST_NS:
+        exec(HISTORY_SRC, _HIST_NS)
+    return _HIST_NS["run_history"](desc)
+
+
+def gen_history(rng):
+    n = rng.choice([1, 2, 3, 3, 3, 4])
+    names = rng.sample(NAMES, n)
+    if rng.random() < 0.5:
+        sizes = [rng.choice([2, 2, 3])] * n
+    else:
+        sizes = [rng.choice([1, 2, 3, 4]) for _ in range(n)]
+    es = rng.choice([[], [], [2]])
+    size_total = int(np.prod(sizes + es)) if sizes + es else 1
+    dtype = "real" if rng.random() < 0.7 else max(size_total, 1)
+    own = rng.random() < 0.85
+    fresh = [k for k in NAMES + ["p", "q"] if k not in names]
+    sibs = []
+    for lab in ["y", "z", "w"][:rng.choice([1, 2, 2, 3])]:
+        kind = rng.choice(["cyclic", "perm", "partial", "direct"])
+        if kind == "cyclic" and n >= 2:
+            sibs.append((lab, "rename", {a: b for a, b in zip(names, names[1:] + names[:1])}))
+        elif kind == "perm" and n >= 2:
+            p = names[:]
+            while p == names:
+                rng.shuffle(p)
+            sibs.append((lab, "rename", {a: b for a, b in zip(names, p) if a != b}))
+        elif kind == "direct" and n >= 2:
+            p = names[:]
+            rng.shuffle(p)
+            if rng.random() < 0.4:
+                p[rng.randrange(n)] = fresh[0]
+            sibs.append((lab, "direct", p))
+        else:
+            m = rng.randint(1, min(2, n))
+            olds = rng.sample(names, m)
+            sibs.append((lab, "rename", dict(zip(olds, fresh[:m]))))
+    keysof = {"x": list(names)}
+    for lab, how, arg in sibs:
+        keysof[lab] = [arg.get(k, k) for k in names] if how == "rename" else list(arg)
+    labs = list(keysof)
+    # a few shared targets, re-used across siblings so that identical `names` tuples recur
+    targets = []
+    for _ in range(3):
+        src = keysof[rng.choice(labs)]
+        k = rng.randint(1, len(src))
+        targets.append(rng.sample(src, k))
+    targets.append(list(names))
+
+    def n2d_for(keys):
+        dims = rng.sample(range(-len(keys) - 2, 0), len(keys))
+        return [[k, d] for k, d in zip(keys, dims)]
+    steps = []
+    while len(steps) < rng.randint(8, 16):
+        tgt = rng.choice(targets)
+        valid = [l for l in labs if all(k in keysof[l] for k in tgt)]
+        if not valid:
+            continue
+        r = rng.random()
+        if r < 0.45 and len(valid) >= 2:
+            a, b = rng.sample(valid, 2)
+            seq = rng.choice([[a, b], [a, b, a], [a, b, a, b]])         # A,B,A repetition
+            for l in seq:
+                op = rng.choice(["align", "align", "align_todata", "roundtrip"])
+                steps.append([op, l, tgt] + ([n2d_for(keysof[l])] if op == "align_todata" else []))
+        elif r < 0.7:
+            l = rng.choice(valid)
+            op = rng.choice(["align", "align_todata", "roundtrip"])
+            steps.append([op, l, tgt] + ([n2d_for(keysof[l])] if op == "align_todata" else []))
+        elif r < 0.85:
+            l = rng.choice(labs)
+            steps.append(["todata", l, n2d_for(keysof[l])])
+        else:
+            a, b = rng.choice(labs), rng.choice(labs)
+            sz = {}
+            ok = not es and dtype == "real"
+            for l in (a, b):
+                for k, s_ in zip(keysof[l], sizes):
+                    ok = ok and sz.setdefault(k, s_) == s_
+            if ok and int(np.prod(list(sz.values()) or [1])) <= 256:
+                steps.append(["binary", a, b])
+    return {"stream": "history", "names": names, "sizes": sizes, "es": es, "dtype": dtype, "own": own,
+            "siblings": [list(x) for x in sibs], "steps": steps}
+
+
+def history_stream(ctx, n):
+    for _ in range(n):
+        desc = gen_history(ctx.rng)
+        fails, info = run_history(desc)
+        ctx.count(f"history:n_inputs={len(desc['names'])}")
+        ctx.count("history:sizes=" + ("all-equal" if len(set(desc["sizes"])) <= 1 else "mixed"))
+        ctx.count("history:own-data" if desc["own"] else "history:view-data")
+        ctx.count(f"history:siblings-sharing-array={info['shared']}")
+        for st in desc["steps"]:
+            ctx.count(f"history:op={st[0]}")
+        for _, how, arg in desc["siblings"]:
+            ctx.count(f"history:sibling={how}")
+        if info["skipped"]:
+            ctx.count("history:skipped-unexpected-sibling")
+            ctx.case()
+            continue
+        if fails:
+            ctx.fail("input", "C19.history-dependent-result", witness=desc, got=fails[0],
+                     expected="every result is the pure function of (data, inputs, names) given by the raw array",
+                     python=HISTORY_SRC + f"\nfails, info = run_history({desc!r})\nprint(fails)\nFAILS = bool(fails)\n")
+            continue
+        ctx.case(sample=None, nontrivial_key=("hist", str(desc)) if len(desc["names"]) >= 2 else None)
+
+
+# ------------------------------------------------------------------------------------------
 # stream: index arithmetic of the model vs numpy
 # ------------------------------------------------------------------------------------------
 
@@ -1087,6 +1357,7 @@ def correspond(ctx):
     lazy_stream(ctx, 150 if quick else 1500)
     materialize_stream(ctx, 250 if quick else 3000)
     slice_stream(ctx, 150 if quick else 1500)
+    history_stream(ctx, 400 if quick else 4000)
     ctx.exhaustive = True
     ctx.assumptions.append("numpy reshape / transpose / broadcast_to are modelled by their index-level "
                            "specification (row-major ravel/unravel), not verified")
@@ -1116,3 +1387,6 @@ def search(ctx, broken):
     if found():
         return
     slice_stream(ctx, 1500)
+    if found():
+        return
+    history_stream(ctx, 4000)
